@@ -83,7 +83,8 @@ def mc_files(tag, insts, mvers, pvers, prior, newflags, bounds, defects=(), inva
            ' MaxSetup = %d' % bounds.get('setup', 99), ' MaxEnv = %d' % bounds.get('env', 0),
            ' MaxConc = %d' % bounds.get('conc', 0), ' MaxCrash = %d' % bounds.get('crash', 0),
            ' MaxErr = %d' % bounds.get('err', 0), ' MaxSync = %d' % bounds.get('sync', 1),
-           ' MaxWrites = %d' % bounds.get('writes', 2), ' MaxPrior = %d' % bounds.get('prior', 0)]
+           ' MaxWrites = %d' % bounds.get('writes', 2), ' MaxPrior = %d' % bounds.get('prior', 0),
+           ' MaxRd = %d' % bounds.get('rd', 0), ' MaxHb = %d' % bounds.get('hb', 0)]
     cfg += ['INVARIANT %s' % i for i in invariants]
     return mod, mod + '.cfg', {mod + '.tla': text, mod + '.cfg': '\n'.join(cfg) + '\n'}
 
